@@ -34,6 +34,14 @@ CLAIMED = {
    text="Kernel-checked sweep over the C13/C14 matrix with a judge and a checker that read the files: every returned handle is at offset 0 and read-only (the documented exception, proved as such: the throw-away read-write file when there is no write cache), every visible entry has no write bit; library-published entries have mode 0444 because the mode is set on the descriptor. Tie: matrix x umask {000,022,077} on the implementation: F_GETFL and SEEK_CUR of every returned handle, st_mode of every visible entry.",
    ref="DESIGN.md section 6 C19", technique="Rocq proof by exhaustive kernel computation over the finite matrix + model/implementation correspondence",
    note="Scoping decision stated in DESIGN.md: the throw-away handle served when nothing is cached is not a cache entry."),
+ "C16": dict(
+   text="Kernel-checked theorems: the validation rule as read from the current source (non-empty, first byte none of . / \\, no '/' anywhere) with its exact characterisation; for EVERY invalid name and every environment response, get/touch/set/put/get_or_update fail with InvalidInput (Unsupported for writes without a write cache) and issue no call naming a path under any cache directory (class-monitor weakest preconditions, then every run). Tie: grammar/fuzz names x every operation x plain/sharded/read-only stacks with sentinel files around and inside the cache root: result class, mutating calls, before/after snapshots, and model/implementation agreement; accepted names must keep every mutating call on dir/name, the temp directory or the key's shard directories.",
+   ref="DESIGN.md section 6 C16", technique="Rocq proof (trace-class monitor wp over program trees, for all responses) + name fuzzing correspondence",
+   note="Confinement of ACCEPTED names is currently established by the correspondence (trace oracle on the implementation + model agreement), the general theorem over the model being work in progress (see DESIGN.md). Finding F1 (names with '/' accepted) reproduced and repaired by fix commit 71a85a6."),
+ "C18": dict(
+   text="The model's fault semantics (a faulted call changes nothing and returns the error; a failing close still releases the descriptor) is proved; the main statement is established on the fault-injected model/implementation correspondence: every call of every fault-free execution x plausible errno, injected once through the interposer, with result class, snapshots and call trace equal to the model's under the same fault, and the property's oracles on the implementation (no panic except the documented flush, reported success achieved, no masked miss, entries complete and read-only, no temp leak, re-issue succeeds).",
+   ref="DESIGN.md section 6 C18", technique="fault enumeration through an LD_PRELOAD interposer against the Rocq model run under the same fault (general theorem over fault positions: work in progress)",
+   note="Level: the universally quantified theorem over fault positions is not finished; what is kernel-checked today is the fault semantics lemma and every theorem proved for arbitrary call results (C20, C16), which cover faults as a special case. Finding F4 reproduced and repaired by fix commit ba190b8. ESTALE is, by the library's documented design, an absence."),
 }
 
 checks, na = [], []
